@@ -43,9 +43,9 @@
      C06_block_resumption_runs_kernel      the in-flow part of the resumption, answered by any function, hands on exactly the
                                            state and records of Model/Block.v `inflow_loop` (what C10's K2 runs) *)
 From Coq Require Import List Bool Arith NArith ZArith Lia.
+From TV Require Import Num.Num Gen.BlockGen Model.Block Model.BlockLeaf Model.BlockTree Proofs.BlockBlind.
+From TV Require Import Model.FiltersBase Gen.FiltersGen Model.ItemFilters Proofs.ItemFiltersBase Proofs.ItemFiltersAbs Model.BlockAlg Proofs.BlockAlgBlind.
 From TV Require Import Model.Engine Model.EngineToy Proofs.EngineMemo Proofs.EngineBlind Proofs.EngineAbs Proofs.EngineAbsToy.
-From TV Require Import Num.Num Gen.BlockGen Model.Block Proofs.BlockBlind.
-From TV Require Import Model.FiltersBase Gen.FiltersGen Model.ItemFilters Proofs.ItemFilters Model.BlockAlg Proofs.BlockAlgBlind.
 From TV Require Import Model.PlacementBase Gen.PlacementGen Model.Placement Proofs.PlacementBlind.
 Import ListNotations.
 
@@ -168,27 +168,23 @@ Theorem C06_flex_items_ignore_absolute :
        agree_except (s_absolute position) f f' cs ->
        flex_generate_items f position bgm build cs = flex_generate_items f' position bgm build cs) /\
     (forall (build : C -> S -> I),
-       flex_generate_items f position bgm (fun _ => build) (filter (fun c => s_in_flow position bgm (f c)) cs) =
+       flex_generate_items f position bgm (fun _ => build) (filter (fun c => negb (s_absolute position (f c))) cs) =
        flex_generate_items f position bgm (fun _ => build) cs) /\
+    (* `order` is the child's index in the child list: every item is `build i c (f c)` for the i-th child c *)
     (forall (build : nat -> C -> S -> I),
-       flex_generate_items f position bgm build cs =
-       map (fun ic => build (fst ic) (snd ic) (f (snd ic))) (filter (fun ic => s_in_flow position bgm (f (snd ic))) (g_enumerate cs))).
+       Forall (fun it => exists i c, nth_error cs i = Some c /\ it = build i c (f c)) (flex_generate_items f position bgm build cs)).
 Proof.
   intros C S I position bgm f f' cs. split; [|split].
-  - intros build Ha. rewrite !flex_generate_items_nf. apply flex_nf_blind.
-    eapply agree_except_mono; [|exact Ha]. apply absolute_out_of_flow.
-  - intros build. rewrite !flex_generate_items_nf. apply flex_nf_delete.
-  - intros build. apply flex_generate_items_nf.
+  - intros build Ha. apply flex_absolute_blind. exact Ha.
+  - intros build. apply flex_delete_absolute.
+  - intros build. apply flex_items_indexed.
 Qed.
 
 Theorem C06_grid_items_ignore_absolute :
   forall (C S : Type) (position : S -> GPosition) (bgm : S -> GBoxGenerationMode) (f f' : C -> S) (cs : list C),
     agree_except (s_absolute position) f f' cs ->
     grid_in_flow_children f position bgm cs = grid_in_flow_children f' position bgm cs.
-Proof.
-  intros C S position bgm f f' cs Ha. apply grid_in_flow_blind.
-  eapply agree_except_mono; [|exact Ha]. apply absolute_out_of_flow.
-Qed.
+Proof. intros C S position bgm f f' cs Ha. apply grid_in_flow_absolute_blind. exact Ha. Qed.
 
 (* block (generate_item_list as translated): absolute children stay items *)
 Theorem C06_block_items_absolute_flagged :
@@ -199,23 +195,37 @@ Theorem C06_block_items_absolute_flagged :
                                     (f c = f' c \/ (s_visible_absolute position bgm (f c) = true /\
                                                     s_visible_absolute position bgm (f' c) = true)))
             (block_generate_items f position bgm build cs) (block_generate_items f' position bgm build cs).
-Proof.
-  intros C S I position bgm f f' cs build Ha. rewrite !block_generate_items_nf. apply block_nf_absolute. exact Ha.
-Qed.
+Proof. intros C S I position bgm f f' cs build Ha. apply block_absolute_flagged. exact Ha. Qed.
 
 (* the tests of the hand-written block model are the predicates found in the source: the in-flow loop's absolute branch, the
    filter of determine_content_based_container_width, the `.all(..)` of all_in_flow_children_can_be_collapsed_through; and the
    absolute branch of the loop was checked (by the translator) to assign fields of `item` only and never to call `tree` *)
 Theorem C06_block_source_predicates :
-  forall (T : Type) (it : Item T) (ct : bool),
-    position_is_absolute (it_position it) = block_inflow_absolute_branch_cond (gpos (it_position it)) ct /\
-    negb (position_is_absolute (it_position it)) = block_content_width_visits (gpos (it_position it)) ct /\
-    orb (negb (negb (position_is_absolute (it_position it)))) ct = block_all_collapsible_pred (gpos (it_position it)) ct /\
-    block_inflow_absolute_branch_is_local = true.
+  (forall (T : Type) (it : Item T) (ct : bool),
+     position_is_absolute (it_position it) = block_inflow_absolute_branch_cond (gpos (it_position it)) ct /\
+     negb (position_is_absolute (it_position it)) = block_content_width_visits (gpos (it_position it)) ct /\
+     orb (negb (negb (position_is_absolute (it_position it)))) ct = block_all_collapsible_pred (gpos (it_position it)) ct /\
+     position_is_absolute (it_position it) = block_absolute_pass_visits (gpos (it_position it)) ct) /\
+  block_inflow_absolute_branch_is_local = true /\ block_tree_calls_address_item_only = true /\
+  (* placement's child iterator of Model/Placement.v, on the C06 family of the placement K (no display:none child) *)
+  (forall (C S : Type) (position : S -> GPosition) (bgm : S -> GBoxGenerationMode) (style_of : C -> S) (placement : S -> child)
+          (cs : list C),
+     Forall (fun c => bgm (style_of c) = BoxGenerationMode_Normal) cs ->
+     in_flow_children (map (fun c => (kind_of (position (style_of c)) (bgm (style_of c)), placement (style_of c))) cs) =
+     map (fun ics : nat * C * S => (Z.of_nat (fst (fst ics)), placement (snd ics))) (grid_in_flow_children style_of position bgm cs)).
 Proof.
-  intros T it ct. split; [apply inflow_branch_is_generated|]. split; [apply content_width_filter_is_generated|].
-  split; [apply all_collapsible_is_generated|reflexivity].
+  split; [|split; [reflexivity|split; [reflexivity|]]].
+  - intros T it ct. split; [apply inflow_branch_is_generated|]. split; [apply content_width_filter_is_generated|].
+    split; [apply all_collapsible_is_generated|apply abs_pass_filter_is_generated].
+  - intros C S position bgm style_of placement cs. apply placement_in_flow_is_generated_no_hidden.
 Qed.
+
+(* determine_content_based_container_width over leaf children (Model/BlockTree.v, run by C10's K1) skips the absolute items *)
+Theorem C06_block_content_width_ignores_absolute :
+  forall (T : Type) (N : Num T) (items : list (Item T * (BStyle T * Measure T))) (aw : Avail T),
+    content_based_width (filter (fun x => negb (position_is_absolute (it_position (fst x)))) items) aw =
+    content_based_width items aw.
+Proof. intros T N items aw. apply content_based_width_delete. Qed.
 
 (* ---------------------------------------------------------------------------------------------- engine *)
 
@@ -321,3 +331,4 @@ Print Assumptions C06_block_source_predicates.
 Print Assumptions C06_block_algorithm_abs_blind.
 Print Assumptions C06_block_engine_instance.
 Print Assumptions C06_block_resumption_runs_kernel.
+Print Assumptions C06_block_content_width_ignores_absolute.
